@@ -2,7 +2,7 @@
 # Run the deductive arm of ALL properties (and optionally the full quick check of the given properties) against every
 # behaviour-preserving refactoring in /verif/seeded_benign — none of them may raise an alarm.
 cd /verif; mkdir -p /tmp/benmatrix
-ids=${@:-$(ls seeded_benign)}
+ids=${@:-$(ls -d seeded_benign/*/ | xargs -n1 basename)}
 run_one() { id=$1; lane=$2; wt=/tmp/wt_bm_$lane
   [ -d $wt ] || git -C /repo worktree add --detach $wt HEAD >/dev/null 2>&1
   git -C $wt checkout -q -- . ; git -C $wt clean -qfd
